@@ -308,6 +308,8 @@ func (r *Run) run() {
 		registerListeners(r, StBadges, boltz.EntityStore[*Badge](r.st.Badges))
 		registerListeners(r, StNotes, boltz.EntityStore[*Note](r.st.Notes))
 		registerListeners(r, StTickets, boltz.EntityStore[*Ticket](r.st.Tickets))
+		registerListeners(r, StReviews, boltz.EntityStore[*Review](r.st.Reviews))
+		registerListeners(r, StFolders, boltz.EntityStore[*Folder](r.st.Folders))
 		registerListeners(r, StGroups, boltz.EntityStore[*Group](r.st.Groups))
 		registerListeners(r, StMemos, boltz.EntityStore[*Memo](r.st.Memos))
 	}
@@ -661,6 +663,9 @@ func (r *Run) onQuiescent() {
 		}
 		r.mu.Lock()
 		r.res.States = append(r.res.States, d.Hash)
+		if traceHooks {
+			fmt.Printf("TRACE quiescent dump=%x txsize=%d txid=%d\n", d.Hash, tx.Size(), tx.ID())
+		}
 		r.lastDump = d
 		restored := r.expectRestored
 		r.expectRestored = nil
@@ -740,10 +745,10 @@ func propsForReject(why string) []string {
 		case w == "":
 		case strings.HasPrefix(w, "name-"), strings.HasPrefix(w, "nick-"), strings.HasPrefix(w, "role-"):
 			set["C03"] = true
-		case strings.HasPrefix(w, "badgeNo-"):
+		case strings.HasPrefix(w, "badgeNo-"), strings.HasPrefix(w, "memo-"):
 			set["C03"] = true
 			set["C15"] = true
-		case strings.HasPrefix(w, "dept-"), strings.HasPrefix(w, "mentor-"), strings.HasPrefix(w, "owner-"), strings.HasPrefix(w, "ref-"), strings.HasPrefix(w, "ticket-"):
+		case strings.HasPrefix(w, "dept-"), strings.HasPrefix(w, "mentor-"), strings.HasPrefix(w, "owner-"), strings.HasPrefix(w, "ref-"), strings.HasPrefix(w, "ticket-"), strings.HasPrefix(w, "review-"):
 			set["C04"] = true
 		case strings.HasPrefix(w, "group-"), strings.HasPrefix(w, "link-"), strings.HasPrefix(w, "rc-"):
 			set["C05"] = true
@@ -1053,17 +1058,23 @@ func (r *Run) execOp(a *attempt, ctx boltz.MutateContext, i int, op Op) error {
 	}
 	var res execResult
 	var pv any
+	opx := op
+	if a.tr.plan.Ctx == "sys" {
+		// the operation runs on the context the library hands to the transaction function, as it is: it must
+		// still be the system context the caller passed in
+		opx.Sys = false
+	}
 	if op.Nested {
 		// the documented join path: Db.Update on a context that is already bound to a transaction just runs fn
 		nerr := r.db.Update(ctx, func(ctx boltz.MutateContext) error {
-			res, pv = safeExecOp(r.st, ctx, op)
+			res, pv = safeExecOp(r.st, ctx, opx)
 			return res.err
 		})
 		if pv == nil && res.err == nil && nerr != nil {
 			res.err = nerr
 		}
 	} else {
-		res, pv = safeExecOp(r.st, ctx, op)
+		res, pv = safeExecOp(r.st, ctx, opx)
 	}
 	r.mu.Lock()
 	fired := a.firedOp
@@ -1181,7 +1192,7 @@ func (r *Run) propsForUnexpectedError(op Op) []string {
 			if len(op.Groups) > 0 {
 				set["C05"] = true
 			}
-		case StBadges, StNotes, StTickets, StMemos:
+		case StBadges, StNotes, StTickets, StMemos, StReviews, StFolders:
 			set["C04"] = true
 		case StGroups:
 			set["C05"] = true
